@@ -18,8 +18,9 @@ Not covered here (Lean cannot see it): that every public method routes through t
 configured `encoding` is ASCII-compatible (the model renders decimals as ASCII digits); a `bool`
 argument (`True` is an `int` for `isinstance`, and `str(True)` is `"True"`) is outside `IntArg`.
 
-Two findings are recorded as theorems: the empty key (`C02_empty_key_counterexample`) and the key
-`noreply` in `delete(..., noreply=False)` (`C02_parse_deleteCmd_noreply_key_counterexample`).
+One finding is recorded as a theorem: the empty key (`C02_empty_key_counterexample`).  The key `noreply`
+in `delete(..., noreply=False)` is read correctly (`C02_parse_deleteCmd_noreply_key`): like memcached,
+the parser looks for the `noreply` marker only *after* the key.
 -/
 namespace Wire
 open Bytes Readers
@@ -153,33 +154,29 @@ theorem C02_parse_fetchCmd_gat (verb : FVerb) (hv : verb = .gat ∨ verb = .gats
 example : parseReq (fetchCmd .gat (some (-1)) [[97]] ++ []) = some (.fetch .gat (some (-1)) [[97]], []) :=
   C02_parse_fetchCmd_gat _ (.inl rfl) _ _ _ (by decide) (by decide)
 
--- Full-strength statement for `delete`, FALSE (see the counterexample below):
---   theorem C02_parse_deleteCmd (hk : validKey key = true) :
---     parseReq (deleteCmd key noreply ++ rest) = some (.delete key noreply, rest)
-
-/-- **`delete`**, with the explicit hypothesis that the key is not the word `noreply` when the client
-does not itself append `noreply`. -/
-theorem C02_parse_deleteCmd_partial (key : Bytes) (noreply : Bool) (rest : Bytes)
-    (hk : validKey key = true) (hnr : key ≠ ofString "noreply" ∨ noreply = true) :
+/-- **`delete`**: every valid key, including the word `noreply` itself, with or without the marker. -/
+theorem C02_parse_deleteCmd (key : Bytes) (noreply : Bool) (rest : Bytes)
+    (hk : validKey key = true) :
     parseReq (deleteCmd key noreply ++ rest) = some (.delete key noreply, rest) :=
-  parseReq_delete key noreply rest hk hnr
+  parseReq_delete key noreply rest hk
 example : parseReq (deleteCmd [107] false ++ [7]) = some (.delete [107] false, [7]) :=
-  C02_parse_deleteCmd_partial _ _ _ (by decide) (.inl (by simp))
+  C02_parse_deleteCmd _ _ _ (by decide)
 example : parseReq (deleteCmd (ofString "noreply") true ++ []) =
     some (.delete (ofString "noreply") true, []) :=
-  C02_parse_deleteCmd_partial _ _ _ (by simp [validKey, Key.forbidden]) (.inr rfl)
+  C02_parse_deleteCmd _ _ _ (by simp [validKey, Key.forbidden])
 
-/-- Counterexample to the full-strength `delete` round trip: `delete(b"noreply", noreply=False)` sends
-`delete noreply\r\n`; the key is legal, but the strict parser takes the only argument for the `noreply`
-marker and finds no key. -/
-theorem C02_parse_deleteCmd_noreply_key_counterexample :
+/-- The former ambiguity is gone: `delete(b"noreply", noreply=False)` sends `delete noreply\r\n`, the key
+is legal, and the strict parser reads it as a `delete` of the key `noreply` that expects a reply. -/
+theorem C02_parse_deleteCmd_noreply_key :
     validKey (ofString "noreply") = true ∧
     deleteCmd (ofString "noreply") false =
       [100, 101, 108, 101, 116, 101, 32, 110, 111, 114, 101, 112, 108, 121, 13, 10] ∧
-    parseReq (deleteCmd (ofString "noreply") false) = none := by
-  refine ⟨by simp [validKey, Key.forbidden], by simp [deleteCmd, noreplySfx, CRLF], ?_⟩
-  simp [deleteCmd, noreplySfx, CRLF, parseReq, findCRLF, splitSp, parseLine, parseSVerb, parseFVerb,
-    CR, LF, SP, splitNoreply]
+    ofString "delete noreply\r\n" =
+      [100, 101, 108, 101, 116, 101, 32, 110, 111, 114, 101, 112, 108, 121, 13, 10] ∧
+    parseReq (deleteCmd (ofString "noreply") false) = some (.delete (ofString "noreply") false, []) := by
+  have hv : validKey (ofString "noreply") = true := by simp [validKey, Key.forbidden]
+  refine ⟨hv, by simp [deleteCmd, noreplySfx, CRLF], by rw [ofString_eq]; decide, ?_⟩
+  simpa using C02_parse_deleteCmd (ofString "noreply") false [] hv
 
 /-- **`incr` / `decr`**: non-negative delta. -/
 theorem C02_parse_arithCmd (incr : Bool) (key : Bytes) (delta : Int) (noreply : Bool) (rest : Bytes)
@@ -315,16 +312,11 @@ theorem C02_parse_encode_fetch (cfg : Cfg) (verb : FVerb) (keys : List Key.K) (e
 example : encodeFetch {} .gat [.bytes [107], .str [97]] (some (.int 60)) =
     .ok (fetchCmd .gat (some 60) [[107], [97]]) := by rfl
 
--- Full-strength statement for `delete`/`delete_many`, FALSE for the wire key `noreply` with
--- `noreply = False` (`C02_parse_deleteCmd_noreply_key_counterexample`); the provable version adds `hnr`.
-
 /-- **`delete`/`delete_many`.**  If the command list is built, every key has a wire form accepted by
-`check_key` and the bytes are read as exactly one `delete` per key, in order — provided no wire key is the
-word `noreply` while the client's own `noreply` is off. -/
-theorem C02_parse_encode_delete_many_partial (cfg : Cfg) (keys : List Key.K) (noreply : Bool)
+`check_key` and the bytes are read as exactly one `delete` per key, in order. -/
+theorem C02_parse_encode_delete_many (cfg : Cfg) (keys : List Key.K) (noreply : Bool)
     (cmds : List Bytes) (h : encodeDelete cfg keys noreply = .ok cmds)
-    (hkey : ∀ k ∈ keys, ∀ w, checkKey cfg k = .ok w → w ≠ [])
-    (hnr : noreply = true ∨ ∀ k ∈ keys, ∀ w, checkKey cfg k = .ok w → w ≠ ofString "noreply") :
+    (hkey : ∀ k ∈ keys, ∀ w, checkKey cfg k = .ok w → w ≠ []) :
     ∃ ks : List Bytes, ks.length = keys.length ∧
       (∀ i (h1 : i < keys.length) (h2 : i < ks.length), checkKey cfg keys[i] = .ok ks[i]) ∧
       parseAll cmds.flatten.length cmds.flatten = some (ks.map fun w => Req.delete w noreply) := by
@@ -342,33 +334,27 @@ theorem C02_parse_encode_delete_many_partial (cfg : Cfg) (keys : List Key.K) (no
     obtain ⟨i, hi, rfl⟩ := List.mem_iff_getElem.1 hw
     have hi' : i < keys.length := by omega
     have hk := hidx i hi' hi
-    apply parsesAs_of
-    intro rest
-    apply C02_parse_deleteCmd_partial _ _ _
-      (checkKey_validKey hk (hkey _ (List.getElem_mem hi') _ hk))
-    rcases hnr with h1 | h2
-    · exact .inr h1
-    · exact .inl (h2 _ (List.getElem_mem hi') _ hk)
+    exact parsesAs_of fun rest =>
+      C02_parse_deleteCmd _ _ rest (checkKey_validKey hk (hkey _ (List.getElem_mem hi') _ hk))
 example : encodeDelete {} [.bytes [107], .str [97]] true =
     .ok [deleteCmd [107] true, deleteCmd [97] true] := by rw [encodeDelete_eq]; rfl
 
-/-- Counterexample to the full-strength `delete_many` statement: the legal key `noreply` with the client's
-`noreply` off is sent as `delete noreply\r\n`, which the strict parser does not read as a `delete` of
-that key. -/
-theorem C02_parse_encode_delete_many_counterexample :
+/-- The legal key `noreply` with the client's `noreply` off: `delete_many([b"noreply"], noreply=False)` is
+built as `delete noreply\r\n` and read as exactly one `delete` of that key expecting a reply. -/
+theorem C02_parse_encode_delete_many_noreply_key :
     encodeDelete {} [.bytes (ofString "noreply")] false = .ok [deleteCmd (ofString "noreply") false] ∧
     parseAll [deleteCmd (ofString "noreply") false].flatten.length
-      [deleteCmd (ofString "noreply") false].flatten = none := by
-  constructor
-  · rw [encodeDelete_eq]
+      [deleteCmd (ofString "noreply") false].flatten = some [.delete (ofString "noreply") false] := by
+  have henc : encodeDelete {} [.bytes (ofString "noreply")] false =
+      .ok [deleteCmd (ofString "noreply") false] := by
+    rw [encodeDelete_eq]
     have : checkKey {} (.bytes [110, 111, 114, 101, 112, 108, 121]) =
         .ok [110, 111, 114, 101, 112, 108, 121] := by decide
     simp [List.mapM_cons, this, bind, Except.bind, pure, Except.pure, Except.map]
-  · have h := C02_parse_deleteCmd_noreply_key_counterexample.2.2
-    have h2 := C02_parse_deleteCmd_noreply_key_counterexample.2.1
-    simp only [List.flatten_cons, List.flatten_nil, List.append_nil]
-    rw [h2] at h ⊢
-    simp [parseAll, h]
+  refine ⟨henc, ?_⟩
+  have hv : validKey (ofString "noreply") = true := by simp [validKey, Key.forbidden]
+  have := parseAll_single (parsesAs_of fun rest => C02_parse_deleteCmd (ofString "noreply") false rest hv)
+  simpa using this
 
 /-- **`incr`/`decr`**: non-negative integer delta. -/
 theorem C02_parse_encode_arith (cfg : Cfg) (incr : Bool) (k : Key.K) (delta : IntArg) (noreply : Bool)
